@@ -575,7 +575,7 @@ _public_ int m_mod_set_tokenbucket(m_mod_t *mod, uint32_t rate, uint64_t burst) 
     mod->tb.burst = burst;
     mod->tb.tokens = burst;
     mod->tb.timer.clock_id = CLOCK_MONOTONIC;
-    mod->tb.timer.ns = BILLION / rate;
+    mod->tb.timer.ns = (BILLION + rate - 1) / rate; // round up: never more than rate refills per second
     return m_mod_src_register_tmr(mod, &mod->tb.timer, M_SRC_INTERNAL | M_SRC_PRIO_HIGH, &mod->tb);
 }
 
